@@ -17,11 +17,32 @@ package tcp
 //@           && 0 < be24(data,6) && be24(data,6) <= be16(data,3)-4 ==> result1 == nil
 //@   ensures result1 != nil ==> result0 == 0
 //@
+//@ // ---- the server name a ClientHello carries (RFC 6066 section 3, read off the wire format) -------------------------
+//@ // hs = the handshake message; positions are offsets into it.
+//@ // a server_name_list (entries: type(1) len(2) name): the first entry of type host_name(0), else what was known before
+//@ spec fun nameWalk(hs []byte, q int, end int, cur string) string decreases end - q = (q >= end || q < 0) ? cur : (hs[q] == 0 ? string(hs[q+3 : q+3+be16(hs, q+1)]) : nameWalk(hs, q + 3 + be16(hs, q+1), end, cur))
+//@ // the extension list (entries: type(2) len(2) body): every server_name(0) extension replaces the name known so far
+//@ spec fun sniWalk(hs []byte, p int, end int, cur string) string decreases end - p = (p >= end || p < 0) ? cur : sniWalk(hs, p + 4 + be16(hs, p+2), end, be16(hs, p) == 0 ? nameWalk(hs, p + 6, p + 4 + be16(hs, p+2), cur) : cur)
+//@ // where the extension block starts: after version(2) random(32) session id, cipher suites and compression methods
+//@ spec fun csPos(hs []byte) int = 39 + int(hs[38])
+//@ spec fun cmPos(hs []byte) int = csPos(hs) + 2 + be16(hs, csPos(hs))
+//@ spec fun extPos(hs []byte) int = cmPos(hs) + 1 + int(hs[cmPos(hs)])
+//@ spec fun sniOf(hs []byte) string = extPos(hs) == len(hs) ? "" : sniWalk(hs, extPos(hs) + 2, len(hs), "")
+//@
 //@ func (*clientHelloMsg).unmarshal
 //@   props C10
 //@   requires m != nil
 //@   assigns m.*
 //@   ensures nopanic
+//@   // an accepted hello yields exactly the server name its extension block carries
+//@   ensures result ==> m.serverName == sniOf(old(data))
+//@   loop 1 invariant ref(data) == ref(old(data)) && off(data) >= off(old(data)) && off(data) + len(data) == off(old(data)) + len(old(data))
+//@   loop 1 invariant sniOf(old(data)) == sniWalk(old(data), off(data) - off(old(data)), len(old(data)), m.serverName)
+//@   loop 2 invariant ref(d) == ref(old(data)) && off(d) >= off(data) + 2 && off(d) + len(d) == off(data) + length
+//@   // inside the name list of a server_name extension nothing has been decided yet: the name is still the one known
+//@   // when this extension was reached, and what remains to be walked decides the outcome
+//@   loop 2 invariant m.serverName == iterold(m.serverName)
+//@   loop 2 invariant nameWalk(old(data), off(data) - off(old(data)) + 2, off(data) - off(old(data)) + length, m.serverName) == nameWalk(old(data), off(d) - off(old(data)), off(data) - off(old(data)) + length, m.serverName)
 //@   loop 1 decreases len(data)
 //@   loop 2 decreases len(d)
 //@   // framing: every turn of the extension loop consumes exactly one extension - its 4-byte header and the number
@@ -34,6 +55,8 @@ package tcp
 //@   requires fullyRead[ref(clientHelloHandshakeMsg)]
 //@   ensures nopanic
 //@   ensures !ok ==> serverName == ""
+//@   // the name used for routing is the one the ClientHello's server_name extension carries (empty when absent)
+//@   ensures ok ==> serverName == sniOf(clientHelloHandshakeMsg)
 //@
 //@ // ---- C12 (and C10: the hello handed to the parser was read completely) ---------------------------
 //@ func (*Proxy).ServeTCP
